@@ -486,12 +486,16 @@ func enumLayouts(maxFiles int, maxLen int64, maxPL uint32, emit func(layout)) {
 }
 
 func TestC02(t *testing.T) {
+	if os.Getenv("VERIF_C02_HUGE_CHILD") != "" {
+		hugeChild()
+		return
+	}
 	logger.Disable()
 	rep := core.NewReport("C02", "geom", "exploration")
 	rep.Rule = "every file-length vector (n files, each 0..L bytes, with/without BEP-47 padding flag) x piece length 1..P at unit scale, " +
 		"block sizes 1..4 via the in-package calculateBlocks, every (offset,length) read inside every piece, every [begin,end) web-seed job range; " +
 		"plus the 16 KiB-scaled image of every n<=2 layout with piece lengths {16,32,48 KiB, 24 KiB, 40 KiB+1} through CalculateBlocks; " +
-		"plus create->parse->allocate->verify on enumerated directory trees. Non-trivial = accepted by metainfo.NewInfo; distinct = distinct (layout) strings."
+		"plus create->parse->allocate->verify on enumerated directory trees, plus size-only layouts with file lengths of 4 GiB and more (tiling arithmetic, termination of piece construction in a child process). Non-trivial = accepted by metainfo.NewInfo; distinct = distinct (layout) strings."
 	rep.Assumptions = []string{"byte values outside the generator pattern are not enumerated (geometry is value-independent)",
 		"file counts/lengths beyond the stated bounds are covered only through the unit-scale coincidence lattice"}
 	c := &checker{rep: rep}
@@ -576,6 +580,7 @@ func TestC02(t *testing.T) {
 		c.rep.Vacuous("vacuous: no accepted layouts")
 	}
 	createRoundTrip(c, rep)
+	hugePart(rep)
 	rep.Finish()
 }
 
